@@ -428,7 +428,16 @@ func extract(repo string) (out string, err error) {
 		}
 	}
 	b.WriteString("end GeomV.C02.GenX\n\n")
-	b.WriteString(extractLoops(repo))
+	var xb strings.Builder
+	xb.WriteString(extractLoops(repo))
+	b.WriteString(xb.String())
+	// fourth pass: the XF rendering with `-` and `/` overflowing to ±Inf (XF.subO / XF.divO) — the same text as the
+	// third pass with the two operations and the namespaces renamed
+	s := b.String()
+	x3 := s[strings.Index(s, "namespace GeomV.C02.GenX\n"):]
+	x4 := strings.NewReplacer("XF.sub ", "XF.subO ", "XF.div ", "XF.divO ", "GenXL", "GenOL", "GenX", "GenO").Replace(x3)
+	b.WriteString("\n/-! the functions of Point.Within over `XF` with OVERFLOW of `-` and `/` (XF.subO, XF.divO) -/\n")
+	b.WriteString(x4)
 	return b.String(), nil
 }
 
